@@ -610,6 +610,9 @@ fn run_sop_ops(t: &[&str]) -> Option<String> {
             if r1 != r2 || r1 != r3 || r1 != r4 {
                 return Some("ok forms-disagree".into());
             }
+            if t[3] == t[4] && (if t[1] == "and" { &a & &a } else { &a | &a }) != r1 {
+                return Some("ok forms-disagree".into());
+            }
             format!("ok {}", show_cubes(r1.cubes()))
         }
         ("sop", "not", 4) => {
@@ -670,6 +673,10 @@ fn run_sop_ops(t: &[&str]) -> Option<String> {
             if r1 != r2 || r1 != r3 || r1 != r4 {
                 return Some("ok forms-disagree".into());
             }
+            // equal operands: also with ONE object on both sides
+            if t[3] == t[4] && (&a ^ &a) != r1 {
+                return Some("ok forms-disagree".into());
+            }
             format!("ok {}", show_cubes(r1.cubes()))
         }
         ("esop", "not", 4) => {
@@ -712,6 +719,9 @@ fn run_sop_ops(t: &[&str]) -> Option<String> {
             let b = Soes::from_cubes(n, parse_ecubes(t[4])?);
             let (r1, r2, r3, r4) = (&a | &b, a.clone() | &b, &a | b.clone(), a.clone() | b.clone());
             if r1 != r2 || r1 != r3 || r1 != r4 {
+                return Some("ok forms-disagree".into());
+            }
+            if t[3] == t[4] && (&a | &a) != r1 {
                 return Some("ok forms-disagree".into());
             }
             format!("ok {}", show_ecubes(r1.cubes()))
